@@ -82,14 +82,37 @@ func Run(prefix []int, body func()) *Execution {
 		body()
 	}()
 	main.wake <- struct{}{}
-	<-e.done
+	// a goroutine that blocks on a primitive the rewriter did not replace never reaches a scheduling point
+	for waiting := true; waiting; {
+		select {
+		case <-e.done:
+			waiting = false
+		case <-time.After(15 * time.Second):
+			e.mu.Lock()
+			st := e.steps
+			e.mu.Unlock()
+			time.Sleep(2 * time.Second)
+			e.mu.Lock()
+			stuck := e.steps == st && !e.finished
+			e.mu.Unlock()
+			if stuck {
+				e.mu.Lock()
+				e.Diverged = "blocked outside the scheduler (a synchronisation primitive that was not rewritten)"
+				e.mu.Unlock()
+				e.finish()
+				waiting = false
+			}
+		}
+	}
 	// let every goroutine of this execution unwind before the next execution starts
 	unwound := make(chan struct{})
 	go func() { e.live.Wait(); close(unwound) }()
 	select {
 	case <-unwound:
-	case <-time.After(20 * time.Second):
-		e.Diverged = "goroutines of the execution did not unwind (blocked outside the scheduler)"
+	case <-time.After(5 * time.Second):
+		if e.Diverged == "" {
+			e.Diverged = "goroutines of the execution did not unwind (blocked outside the scheduler)"
+		}
 	}
 	curExecMu.Lock()
 	curExec = nil
@@ -427,9 +450,17 @@ func (m *Mutex) Unlock() {
 // Explore runs body under every schedule with at most `bound` preemptions (bound < 0: unbounded) and
 // calls visit for each complete execution. It returns the number of executions.
 func Explore(bound int, body func(), visit func(*Execution)) int {
+	return ExploreUntil(bound, body, visit, func() bool { return false })
+}
+
+// ExploreUntil is Explore with an abort condition checked before every execution.
+func ExploreUntil(bound int, body func(), visit func(*Execution), stop func() bool) int {
 	n := 0
 	var rec func(prefix []int)
 	rec = func(prefix []int) {
+		if stop() {
+			return
+		}
 		x := Run(prefix, body)
 		n++
 		visit(x)
